@@ -17,7 +17,12 @@ def get_cases(chk, quick, seed, n_pairs_quick=110, n_sim_quick=30, n_sim_thoroug
     if quick:
         singles = [c for c in cases if len(c['features']) <= 1]
         pairs = [c for c in cases if len(c['features']) > 1]
-        cases = singles + rnd.sample(pairs, min(n_pairs_quick, len(pairs)))
+        # fixed corner pairs (feature interactions that seeded changes showed to matter) + a seeded sample
+        corners = [{'f_map', 's_flatten'}, {'s_required', 'o_rest'}, {'s_required', 'o_grpc_rest'}, {'m_raw_operation', 'o_mixins'},
+                   {'f_deppkg', 'm_dep_request'}, {'o_ads', 's_flatten'}, {'o_rest', 'm_paged_map'}]
+        fixed = [c for c in pairs if set(c['features']) in corners]
+        rest = [c for c in pairs if set(c['features']) not in corners]
+        cases = singles + fixed + rnd.sample(rest, min(n_pairs_quick, len(rest)))
     sim, r3 = tlc.emit_cases('Features', 'Features.emit.sim.cfg', deadlock=False, simulate=(n_sim_quick if quick else n_sim_thorough) * 2,
                              depth=14, seed=seed, timeout=900)
     chk.tlc_runs.append(dict(label='Features -simulate', **r3.summary()))
